@@ -304,10 +304,25 @@ class SF:
 
     def __rmul__(self, o): return SF.of(o).__mul__(self)
 
+    def _div_with_infinities(self, o):
+        """IEEE division when an operand may already be infinite (signed zeros are not distinguished: a zero divisor counts as +0)"""
+        s_inf = b_or(self.pinf, self.ninf)
+        o_inf = b_or(o.pinf, o.ninf)
+        zero = b_and(b_not(o_inf), o.v == 0)
+        nan = b_or(self.nan, o.nan, b_and(s_inf, o_inf), b_and(zero, b_not(s_inf), self.v == 0))
+        o_nonneg = o.v >= 0
+        pinf = b_and(b_not(nan), b_or(b_and(self.pinf, b_not(o_inf), o_nonneg), b_and(self.ninf, b_not(o_inf), b_not(o_nonneg)),
+                                     b_and(b_not(s_inf), zero, self.v > 0)))
+        ninf = b_and(b_not(nan), b_or(b_and(self.ninf, b_not(o_inf), o_nonneg), b_and(self.pinf, b_not(o_inf), b_not(o_nonneg)),
+                                     b_and(b_not(s_inf), zero, self.v < 0)))
+        special = to_z3_bool(b_or(zero, s_inf, o_inf))
+        q = _DIV(self.v, o.v) if Config.div_uninterpreted else self.v / z3.If(special, z3.RealVal(1), o.v)
+        return SF(nan, z3.If(special, z3.RealVal(0), q), pinf, ninf)
+
     def __truediv__(self, o):
         o = SF.of(o)
         if not (self.trivial() and o.trivial()):
-            raise Unsupported("division with infinities")
+            return self._div_with_infinities(o)
         if z3.is_rational_value(o.v) and not z3.is_true(z3.simplify(o.v == 0)) and (
                 not Config.div_uninterpreted or z3.is_rational_value(self.v)):
             return SF(b_or(self.nan, o.nan), self.v / o.v)
@@ -449,13 +464,30 @@ def total(xs, zero=0):
 _orig_pow = z3.ArithRef.__pow__
 
 
+def _int_overflow_obligation(r):
+    """where a case asks for it (variance of integer data), a 64-bit integer product / stored sum must fit into 64 bits: the solver's
+    integers do not wrap, the machine's do"""
+    try:
+        from .runtime import current
+        rt = current()
+    except Exception:      # noqa: BLE001
+        return
+    if getattr(rt, "check_int_overflow", False) and z3.is_int(r) and not z3.is_int_value(r):
+        rt.check("int_overflow", z3.And(r >= -2**63, r < 2**63))
+
+
 def _pow(self, k):
     if k == 2 and Config.sq_uninterpreted and not (z3.is_int_value(self) or z3.is_rational_value(self)):
-        return _SQI(self) if z3.is_int(self) else _SQR(self)
+        r = _SQI(self) if z3.is_int(self) else _SQR(self)
+        if z3.is_int(self):
+            _int_overflow_obligation(self * self)
+        return r
     if isinstance(k, int) and 0 < k <= 4:
         r = self
         for _ in range(k - 1):
             r = r * self
+        if z3.is_int(self):
+            _int_overflow_obligation(r)
         return r
     return _orig_pow(self, k)
 
